@@ -223,13 +223,13 @@ theorem c12_withdraw_grantee_unusable (bal : Nat → Int) (ops : List Op) {m : W
   · exact e
   · obtain ⟨hm, _, _, hk⟩ := getGrant_spec hg
     have := hN g hm hk
-    rw [run_fixed] at this
+    rw [run_codecFixed] at this
     cases this
 
 /-- with the authorization registered (patched variant) a grantee does withdraw: after these five operations
     account 4 has moved 40 of campaign 20 to its promoter 1 and the grant's limit is down to 60 -/
 theorem c12_withdraw_grantee_usable_fixed :
-    let s := run (init true bal0)
+    let s := run { init true bal0 with codecFixed := true }
       [ .time 100,
         .createPromoter { creator := 1, tv := true, uid := 7, uidOk := true, conf := [] },
         .createCampaign { creator := 1, uid := 20, funds := some 1000, tv := true, promoter := 1, startTS := 100, endTS := 200,
